@@ -393,6 +393,24 @@ class Check:
 
 # --------------------------------------------------------------------------- helpers
 
+def _abort_file():
+    return os.environ.get("YPV_ABORT_FILE") or os.path.join(VERIF, "out", "abort-%d" % os.getppid())
+
+
+def signal_abort():
+    """A worker found a hang: tell the other workers of this run to stop generating cases (each
+    further hanging case would cost a full time limit)."""
+    try:
+        os.makedirs(os.path.dirname(_abort_file()), exist_ok=True)
+        open(_abort_file(), "w").close()
+    except OSError:
+        pass
+
+
+def aborted():
+    return os.path.exists(_abort_file())
+
+
 def exc_class(e: BaseException) -> str:
     """Map an exception from the implementation to the small outcome enum."""
     from yamlpath.exceptions import YAMLPathException
